@@ -13,6 +13,9 @@ The real cli.parser.parse_config_file is executed by the control executor on an 
   (K7) values: every documented option written in the documented format (`key = value   # comment`, comma-separated lists, lists of lists separated by semi-colons,
        with or without blanks around the separators) arrives at its destination with the value the equivalent API call is given; the abstract ConfigParser models
        the value extraction of configparser (inline comments as configured by the constructor call of the code under contract).
+  (K8) `-l / --layered` and [layered] (contracts/c18_layered.py): whatever way the simulation took (direct run; stored with --save / --cache and loaded with or without `-l`, i.e. the real
+       Simulation.__init__ / to_dict / from_dict / setter of Simulation.layered executed in sequence), an option the user gave is held with the user's value, and a simulation switched to
+       layered holds the same layered_opts as the API call Simulation(..., layered=True, layered_opts=<options of [layered]>); documented defaults only where nothing is given.
 Not covered: equality of computed results between CLI and API.
 """
 import ast
@@ -646,17 +649,24 @@ def task_concrete():
     r = ob.guarded(c18_concrete.check_cfg_model)
     col.concrete('configparser_model_of_the_deductive_part_agrees_with_configparser', r['reproduced'] is False, r,
                  bounded='lines built from up to 4 atoms (numbers, separators with and without blanks, comments), inline_comment_prefixes in {(), #, (#,;), ;}', cases=r.get('cases', 0))
+    r = ob.guarded(c18_concrete.check_layered)
+    col.concrete('layered_options_and_-l_directly_and_after_save_load_cache_vs_the_API_call', r['reproduced'] is False, r,
+                 bounded='one small laterally varying model, one source, three receivers, two frequencies; two [layered] sections; dry runs through emg3d.cli.main.main: direct -l, --save without -l then '
+                         '--load -l, --save -l / --cache without -l / --load -l, --save -l then --load -l (options held by the stored simulation vs the numbers written and vs the API simulation); '
+                         'two real forward runs with -l (direct, after --save without -l / --load) vs the data of the API call', cases=r.get('cases', 0))
     return col.pack()
 
 
 def tasks(tier):
-    return [('contracts.c18', n, {}) for n in ('task_keys', 'task_precedence', 'task_values', 'task_run', 'task_concrete')]
+    from . import c18_layered
+    return [('contracts.c18', n, {}) for n in ('task_keys', 'task_precedence', 'task_values', 'task_run', 'task_concrete')] + c18_layered.tasks(tier)
 
 
 LEVEL = ('The real configuration parser is executed by the control executor on an abstract ConfigParser: recognised key sets are observed from the parser itself, every recognised key is shown to reach its '
          'destination, an arbitrary other key (opaque sentinel) is rejected in every section, terminal values win over file values; the chain documented <= recognised and emitted <= accepted-by-API is checked '
          'against docs/manual/cli.rst and the API source; the hand-over in cli.run is checked on its call sites; API values rendered in the documented text format (all combinations of separator / comment styles) '
-         'are shown to arrive unchanged at their destinations.')
+         'are shown to arrive unchanged at their destinations; the real Simulation constructor, to_dict / from_dict and the setter of Simulation.layered are executed in the sequences the CLI produces with '
+         '--save / --load / --cache and -l, over every subset of the [layered] options: given options are kept, a simulation switched to layered holds the layered_opts of the equivalent API call.')
 ASSUMPTIONS = ['configparser.ConfigParser / pathlib.Path / os.path behave as modelled (sections, items, has_option, get*, suffix handling)',
                'the parser inspects option NAMES only by comparison with string literals (so one opaque unknown key stands for all)',
                'equality of the computed results between CLI and API is only covered by the bounded concrete run']
